@@ -97,10 +97,12 @@ PROPS["C09"] = dict(
 )
 
 PROPS["C10"] = dict(
-    units=[("kani", "ops")],
+    units=[("kani", "ops"), ("verus", "keys")],
     explanation="For all pairs of scalar keys (Integer, Float, Byte, Char, Bool, Null): k1 == k2 implies the two keys feed identical byte "
-                "streams to any Hasher, which is the precondition of HashMap's lookup contract.",
-    not_covered=["Str/Arr/Builtin keys (String/Vec hashing outside Kani's reach)", "HashMap's own contract (std, assumed)",
+                "streams to any Hasher, which is the precondition of HashMap's lookup contract. Arrays and the rest (Verus, keys unit, real bodies of PartialEq for Object / Array and Hash for Object / Array): == is element-wise on arrays of equal length "
+                "and the payload comparison otherwise; hash feeds float_key_bits of the double a number compares as, the char / byte / bool / text otherwise, and an array's elements in order; "
+                "lemma (induction over length and nesting): two valid keys that are == feed the hasher the same stream.",
+    not_covered=["HMap::get / contains / insert and exec_hash_index's use of them (one-line wrappers over std HashMap; exercised by the bounded stand-in)", "HashMap's own contract (std, assumed)",
                  "Object::eq is not transitive across Integer/Float above 2^53 (stated limitation of the std contract's precondition)"],
     assumptions=["std HashMap returns the value most recently inserted under a key that is == and hashes equally"],
     trusted=COMMON_TRUST,
